@@ -503,12 +503,16 @@ class Body:
                     e = E("deref", e)
             elif "f" in el:
                 name = el.get("n", el["f"])
-                if e.k == "agg" and e.a[0] in ("tuple",) and isinstance(el["f"], int) and el["f"] < len(e.a[1]):
+                if e.k == "agg" and (e.a[0] in ("tuple",) or str(e.a[0]).startswith("adt:")) and isinstance(el["f"], int) and el["f"] < len(e.a[1]) \
+                        and not str(e.a[0]).startswith("closure:"):
                     e = e.a[1][el["f"]]
                 else:
                     e = E("field", e, name)
             elif "dc" in el:
-                e = E("downcast", e, el.get("n", el["dc"]))
+                if e.k == "agg" and str(e.a[0]).startswith("adt:") and str(e.a[0]).endswith("::" + str(el.get("n"))):
+                    pass            # downcast of a known variant aggregate: keep the aggregate, the field projection picks its operand
+                else:
+                    e = E("downcast", e, el.get("n", el["dc"]))
             elif "idx" in el:
                 e = E("index", e, env[el["idx"]] if (env is not None and el["idx"] in env) else self.expr_local(el["idx"]))
             elif "cidx" in el:
